@@ -11,6 +11,7 @@ package main
 
 import (
 	"context"
+	"encoding/json"
 	"fmt"
 	"math/rand/v2"
 	"os"
@@ -141,6 +142,20 @@ func kindsOf(err error) string {
 	return strings.Join(l, "+")
 }
 
+func (b *backend) relListWithout(l []string, drop string) string {
+	var out []string
+	for _, p := range l {
+		q := filepath.ToSlash(filepath.Clean(p))
+		q = strings.TrimPrefix(q, filepath.ToSlash(filepath.Clean(b.root)))
+		q = strings.TrimPrefix(q, "/")
+		if q == drop {
+			continue // whether the listed directory itself is reported is unspecified
+		}
+		out = append(out, q)
+	}
+	return setVal(out)
+}
+
 func (b *backend) relList(l []string) string {
 	var out []string
 	for _, p := range l {
@@ -197,7 +212,7 @@ func (b *backend) exec(c call, entries int) result {
 		case "LsRecursive":
 			var l []string
 			l, err = fs.LsRecursive(ctx, A, c.Flag)
-			val = b.relList(l)
+			val = b.relListWithout(l, cl(c.A))
 		case "ListDirTree":
 			var l []string
 			if c.Ctx > 0 {
@@ -205,7 +220,7 @@ func (b *backend) exec(c call, entries int) result {
 			} else {
 				err = fs.ListDirTree(A, &l)
 			}
-			val = b.relList(l)
+			val = b.relListWithout(l, cl(c.A))
 		case "SubDirectories":
 			var l []string
 			if c.Ctx > 0 {
@@ -217,7 +232,14 @@ func (b *backend) exec(c call, entries int) result {
 		case "FindAll":
 			var l []string
 			l, err = fs.FindAll(A, "txt")
-			val = b.relList(l)
+			var files []string
+			for _, p := range l {
+				if isDir, _ := b.base.Stat(p); isDir != nil && isDir.IsDir() {
+					continue // directories carrying the extension are a don't-care region
+				}
+				files = append(files, p)
+			}
+			val = b.relList(files)
 		case "Exists":
 			val = boolS(fs.Exists(A))
 		case "IsFile":
@@ -388,6 +410,19 @@ func genProgram(r *vrun.Run, idx int) program {
 	return p
 }
 
+func directedPrograms() []program {
+	f := func(d string) node { return node{Data: d} }
+	dir := node{Dir: true}
+	return []program{
+		{Stream: "model", Initial: tree{}, Calls: []call{{Op: "WriteFile", A: "a/c.txt", Data: "x"}}},
+		{Stream: "model", Initial: tree{}, Calls: []call{{Op: "Touch", A: "a/c.txt"}}},
+		{Stream: "wild", Initial: tree{"b": f("yy")}, Calls: []call{{Op: "MkDir", A: "b/a"}}},
+		{Stream: "wild", Initial: tree{"a": dir, "a/a": f(""), "a/b": f("x")}, Calls: []call{{Op: "CopyToDirectory", A: "a/", B: "a/a/c.txt"}}},
+		{Stream: "model", Initial: tree{"a": dir, "a/a": dir, "a/a/c.txt": f("w"), "b": dir, "b/a": dir, "b/a/a": dir, "b/a/a/b": f("zzz")}, Calls: []call{{Op: "Move", A: "a/", B: "b/a/"}}},
+		{Stream: "model", Initial: tree{"a": dir, "a/a": dir, "a/a/c.txt": f("w"), "b": dir, "b/a": dir, "b/a/a": dir, "b/a/a/b": f("zzz")}, Calls: []call{{Op: "Move", A: "a", B: "b/a"}}},
+	}
+}
+
 func entriesChanged(before, after tree, keep func(p string) bool) []string {
 	var out []string
 	for p, n := range before {
@@ -480,6 +515,7 @@ func runProgram(r *vrun.Run, p program, scratch string) {
 	for i, c := range p.Calls {
 		exp := expect(model, c)
 		preOS, preMem := bo.dump(), bm.dump()
+		r.Progress(map[string]any{"program_index": p.Index, "call_index": i, "call": c, "tree_before": preMem.String(), "src": exp.SrcClass, "dst": exp.DstClass, "overlap": exp.Overlap})
 		ro := bo.exec(c, len(preOS))
 		rm := bm.exec(c, len(preMem))
 		postOS, postMem := bo.dump(), bm.dump()
@@ -541,7 +577,9 @@ func runProgram(r *vrun.Run, p program, scratch string) {
 				if (c.Op == "Copy" || c.Op == "CopyToFile" || c.Op == "CopyToDirectory") && allUnder(changed, a) {
 					kind = "copy-changed-its-source"
 				}
-				r.Violation(sig(x.b.name, kind), fmt.Sprintf("%s(%q,%q) on %s: %s", c.Op, c.A, c.B, x.b.name, strings.Join(changed[:min(3, len(changed))], "; ")), witness())
+				sg := sig(x.b.name, kind)
+				sg["change"] = strings.Fields(changed[0])[0]
+				r.Violation(sg, fmt.Sprintf("%s(%q,%q) on %s: %s", c.Op, c.A, c.B, x.b.name, strings.Join(changed[:min(3, len(changed))], "; ")), witness())
 				stop = true
 			}
 			// a copy never changes its source (also when they overlap): pre-existing source entries outside the destination subtree
@@ -558,7 +596,9 @@ func runProgram(r *vrun.Run, p program, scratch string) {
 					}
 				}
 				if len(real) > 0 && a != b2 {
-					r.Violation(sig(x.b.name, "copy-changed-its-source"), fmt.Sprintf("%s(%q,%q) on %s: %s", c.Op, c.A, c.B, x.b.name, strings.Join(real[:min(3, len(real))], "; ")), witness())
+					sg := sig(x.b.name, "copy-changed-its-source")
+					sg["change"] = strings.Fields(real[0])[0]
+					r.Violation(sg, fmt.Sprintf("%s(%q,%q) on %s: %s", c.Op, c.A, c.B, x.b.name, strings.Join(real[:min(3, len(real))], "; ")), witness())
 					stop = true
 				}
 			}
@@ -685,6 +725,36 @@ func main() {
 		"termination is decided on logical work: 2000×(entries+10) backend operations per call, then every further operation of that call fails so that the recursion unwinds",
 		"symbolic links are out of scope here (C04)", "listing order, mtimes and permissions are not compared")
 	if _, _, isChild := r.Child(); !isChild && r.Replay == "" {
+		r.OnChildFailure = func(progress, output string) bool {
+			if progress == "" || !(strings.Contains(output, "fatal error:") || strings.Contains(output, "panic:")) {
+				return false
+			}
+			var pr struct {
+				Call call   `json:"call"`
+				Tree string `json:"tree_before"`
+				Src  string `json:"src"`
+				Dst  string `json:"dst"`
+				Ov   string `json:"overlap"`
+				Idx  int    `json:"program_index"`
+			}
+			if json.Unmarshal([]byte(progress), &pr) != nil {
+				return false
+			}
+			who := "unknown"
+			if strings.Contains(output, "afero.(*MemMapFs)") {
+				who = "mem"
+			}
+			head := output
+			if i := strings.Index(head, "fatal error:"); i >= 0 {
+				head = head[i:]
+			} else if i := strings.Index(head, "panic:"); i >= 0 {
+				head = head[i:]
+			}
+			r.Violation(vrun.Sig{"op": pr.Call.Op, "src": pr.Src, "dst": pr.Dst, "overlap": pr.Ov, "who": who, "deviation": "process-crash"},
+				fmt.Sprintf("%s(%q,%q) crashed the process: %s", pr.Call.Op, pr.Call.A, pr.Call.B, trunc(strings.SplitN(head, "\n", 2)[0], 120)),
+				map[string]any{"program": map[string]any{"index": pr.Idx}, "call": pr.Call, "tree_before": pr.Tree, "crash_output_head": trunc(head, 3000)})
+			return true
+		}
 		r.SpawnChildren(16, 16, nil, 30*time.Minute)
 		r.Require("conflict_free_calls_compared", int64(r.Pick(8000, 300000)))
 		r.Require("invariant_checks", int64(r.Pick(30000, 1000000)))
@@ -713,7 +783,15 @@ func main() {
 		r.Finish()
 	}
 	idx, n, _ := r.Child()
-	total := r.Pick(1500, 60000)
+	total := r.Pick(6000, 60000)
+	if idx == 0 {
+		// directed programs: one minimal reproduction per known-finding class, so that every run re-observes them
+		for di, d := range directedPrograms() {
+			d.Index = -1 - di
+			d.InitialS = d.Initial.String()
+			runProgram(r, d, scratch)
+		}
+	}
 	for i := idx; i < total; i += n {
 		runProgram(r, genProgram(r, i), scratch)
 	}
